@@ -110,7 +110,11 @@ func (l *Lexer) NextToken() token.Token {
 		tok := l.bracesToken(token.LBRACES, "{{")
 
 		if l.char == '-' && l.peekChar() == '-' {
-			l.skipComment()
+			if !l.skipComment() {
+				// the comment is never closed
+				return l.illegalToken()
+			}
+
 			return l.NextToken()
 		}
 
@@ -573,23 +577,24 @@ func (l *Lexer) skipWhitespace() {
 	}
 }
 
-func (l *Lexer) skipComment() {
+// skipComment skips everything up to and including the closing "--}}".
+// It returns false when the comment is not terminated.
+func (l *Lexer) skipComment() bool {
+	l.isHTML = true
+
 	for l.char != 0 {
-		if l.char != '-' || l.peekChar() != '-' {
+		if !strings.HasPrefix(l.input[l.pos:], "--}}") {
 			l.readChar()
 			continue
 		}
 
 		l.readChar() // skip "-"
 		l.readChar() // skip "-"
+		l.readChar() // skip "}"
+		l.readChar() // skip "}"
 
-		if l.char == '}' || l.peekChar() == '}' {
-			break
-		}
+		return true
 	}
 
-	l.isHTML = true
-
-	l.readChar() // skip "}"
-	l.readChar() // skip "}"
+	return false
 }
